@@ -4,7 +4,9 @@ import (
 	"bytes"
 	"context"
 	"encoding/json"
+	"errors"
 	"fmt"
+	"math"
 	"reflect"
 	"strings"
 	"sync"
@@ -98,6 +100,12 @@ type c19Read struct {
 	Binary bool
 	Mangle string // "" | truncate | trailing | two-values | garbage
 	depth  int
+	// Shape: how the peer frames the document: one frame | two fragments | the whole
+	// document in a non-final frame followed by an empty final frame (what a peer
+	// streaming through a message writer sends).
+	Shape string
+	// OwnCtx: wsjson.Read gets a context of its own that is cancelled as soon as the call has returned.
+	OwnCtx bool
 }
 
 func newTarget(kind string) any {
@@ -195,6 +203,8 @@ func genC19Read(rt *rapid.T, nConns int) c19Read {
 	}
 	r.Doc = doc
 	r.Binary = rapid.IntRange(0, 9).Draw(rt, "binary") == 0
+	r.Shape = rapid.SampledFrom([]string{"one", "one", "two", "empty-fin"}).Draw(rt, "frameShape")
+	r.OwnCtx = rapid.Bool().Draw(rt, "ownCtx")
 	return r
 }
 
@@ -265,10 +275,26 @@ func runC19Reads(t fataler, c c19Case, concurrent bool) (string, c19Result) {
 		if r.Binary {
 			op = ref.OpBinary
 		}
-		lc.Peer.send(ref.Frame{Fin: true, Opcode: op, Payload: r.Doc})
+		switch r.Shape {
+		case "two":
+			lc.Peer.send(ref.Frame{Opcode: op, Payload: r.Doc[:len(r.Doc)/2]})
+			lc.Peer.send(ref.Frame{Fin: true, Opcode: ref.OpCont, Payload: r.Doc[len(r.Doc)/2:]})
+		case "empty-fin":
+			lc.Peer.send(ref.Frame{Opcode: op, Payload: r.Doc})
+			lc.Peer.send(ref.Frame{Fin: true, Opcode: ref.OpCont})
+		default:
+			lc.Peer.send(ref.Frame{Fin: true, Opcode: op, Payload: r.Doc})
+		}
 		target := newTarget(r.Target)
 		var err error
-		d := e.Call(func() { err = wsjson.Read(ctx, lc.C, target) })
+		rctx, rcancel := ctx, context.CancelFunc(func() {})
+		if r.OwnCtx {
+			rctx, rcancel = context.WithCancel(ctx)
+		}
+		d := e.Call(func() {
+			err = wsjson.Read(rctx, lc.C, target)
+			rcancel() // the idiomatic per-message context: cancelled once the call is over
+		})
 		if !within(d, 30*time.Second) {
 			setFail(fmt.Sprintf("read %d did not return", i))
 			return
@@ -384,7 +410,7 @@ func genC19(rt *rapid.T) c19Case {
 
 func TestC19(t *testing.T) {
 	rec := evid.For("C19")
-	rec.Rule = "reads: rapid draws 2-8 wsjson.Read calls over 1-3 connections (sharing the buffer pool), each with a document from a recursive JSON generator (depth <= 6, unicode/escapes, strings up to 160 KB with the read limit raised, numbers, nulls), optionally indented, mangled (truncated, trailing garbage, two values, garbage) or of the wrong shape for the target, decoded into interface{}, a struct, json.RawMessage, []byte, string, map or slice; compared with encoding/json on the same bytes (accept/reject and value), invalid => Close 1007 on the wire, earlier results re-checked after all later reads. writes: generated values written with wsjson.Write must appear as exactly one text message whose payload is JSON-equivalent. Non-trivial: a nested value (depth >= 2) or a RawMessage/[]byte target followed by another read. distinct = hash(mode, conns, per-read (target, mangle, depth, size class))."
+	rec.Rule = "reads: rapid draws 2-8 wsjson.Read calls over 1-3 connections (sharing the buffer pool), each with a document from a recursive JSON generator (depth <= 6, unicode/escapes, strings up to 160 KB with the read limit raised, numbers, nulls), optionally indented, mangled (truncated, trailing garbage, two values, garbage) or of the wrong shape for the target, framed as one frame / two fragments / one non-final frame plus an empty final frame, read with the shared context or with a context of its own that is cancelled as soon as the call returned; writes: 1-5 wsjson.Write calls incl. values encoding/json rejects (NaN, Inf, chan, func, failing Marshaler), after which the later values must still arrive; decoded into interface{}, a struct, json.RawMessage, []byte, string, map or slice; compared with encoding/json on the same bytes (accept/reject and value), invalid => Close 1007 on the wire, earlier results re-checked after all later reads. writes: generated values written with wsjson.Write must appear as exactly one text message whose payload is JSON-equivalent. Non-trivial: a nested value (depth >= 2) or a RawMessage/[]byte target followed by another read. distinct = hash(mode, conns, per-read (target, mangle, depth, size class))."
 	rapid.Check(t, func(rt *rapid.T) {
 		c := genC19(rt)
 		var msg string
@@ -444,14 +470,23 @@ func c19Record(rec *evid.Rec, c c19Case, res c19Result, how string) {
 }
 
 // TestC19Write: wsjson.Write sends exactly one text message that is JSON-equivalent to the value.
+type c19BadMarshaler struct{}
+
+func (c19BadMarshaler) MarshalJSON() ([]byte, error) { return nil, errors.New("refuses to be marshalled") }
+
 func TestC19Write(t *testing.T) {
 	rec := evid.For("C19")
 	rapid.Check(t, func(rt *rapid.T) {
 		mode := rapid.SampledFrom(c16Modes).Draw(rt, "mode")
 		n := rapid.IntRange(1, 5).Draw(rt, "nWrites")
 		var vals []any
+		bad := map[int]bool{}
 		for i := 0; i < n; i++ {
-			switch rapid.IntRange(0, 3).Draw(rt, "valKind") {
+			switch rapid.IntRange(0, 4).Draw(rt, "valKind") {
+			case 4:
+				// a value encoding/json rejects: the call fails, nothing of it is sent, later values still go out
+				bad[i] = true
+				vals = append(vals, []any{math.NaN(), math.Inf(1), make(chan int), map[string]any{"deep": []any{1, math.NaN()}}, c19BadMarshaler{}, func() {}}[rapid.IntRange(0, 5).Draw(rt, "badKind")])
 			case 0:
 				vals = append(vals, c19Struct{A: i, B: rapid.SampledFrom(c19Strings).Draw(rt, "b"), C: []float64{1, 2.5}, F: json.RawMessage(`{"raw":[1,2]}`), G: map[string]any{"k": genJSON(rt, 2)}})
 			case 1:
@@ -476,18 +511,39 @@ func TestC19Write(t *testing.T) {
 			}
 			lc.Peer.start(e)
 			var werr error
+			var good []any
+			sawBad := false
 			d := e.Call(func() {
-				for _, v := range vals {
-					if werr = wsjson.Write(context.Background(), lc.C, v); werr != nil {
+				for i, v := range vals {
+					err := wsjson.Write(context.Background(), lc.C, v)
+					if bad[i] {
+						sawBad = true
+						if err == nil {
+							werr = fmt.Errorf("write %d: a value that encoding/json cannot encode (%T) was written without an error", i, v)
+							return
+						}
+						continue
+					}
+					if err != nil {
+						if cl, _ := lc.Lib.Closed(); sawBad && cl {
+							return // an implementation may treat the failed write like any other error and close
+						}
+						werr = fmt.Errorf("write %d: %w", i, err)
 						return
 					}
+					good = append(good, v)
 				}
 				lc.C.Close(websocket.StatusNormalClosure, "")
 			})
-			if !within(d, 60*time.Second) || werr != nil {
+			if !within(d, 60*time.Second) {
+				fail = fmt.Sprintf("wsjson.Write calls did not return within 60 s (bad values at %v): a failed write left the connection unusable for the writes after it", bad)
+				return
+			}
+			if werr != nil {
 				fail = fmt.Sprintf("wsjson.Write failed: %v", werr)
 				return
 			}
+			vals := good
 			lc.Peer.waitEOF(30 * time.Second)
 			rep, verr := ref.ValidateStream(lc.End.InRecording(), ref.StreamOpts{FromClient: mode.Client, Deflate: lc.Agreed.Deflate, Takeover: lc.Agreed.SenderTakeover(mode.Client)}, false)
 			if verr != nil {
@@ -516,7 +572,11 @@ func TestC19Write(t *testing.T) {
 				}
 			}
 		})
-		rec.Case(true, fmt.Sprintf("write|%s|%d|%v", mode.Name, n, jsonDepth(vals[0])), "write")
+		wc := "write"
+		if len(bad) > 0 {
+			wc = "write-with-unencodable-value"
+		}
+		rec.Case(true, fmt.Sprintf("write|%s|%d|%v|%v", mode.Name, n, jsonDepth(vals[0]), bad), wc)
 		if fail != "" {
 			rt.Fatalf("C19 write mode=%s: %s", mode.Name, fail)
 		}
